@@ -637,6 +637,15 @@ type ContractSet struct {
 	Sweeps  []SweepDecl
 	TypeInvs []TypeInv
 	FrameDecls []FrameDecl
+	Lemmas     []*Lemma
+}
+
+type Lemma struct {
+	Prop, Name, Src string
+	Dispatch        []string
+	Expr            CExpr
+	Pkg, File       string
+	Line            int
 }
 
 type FrameDecl struct {
@@ -738,7 +747,34 @@ func (cs *ContractSet) parseContractLines(file, pkgPath string, lines []string, 
 			sf.Pkg, sf.File, sf.Line = pkgPath, file, s.line
 			cs.Specs = append(cs.Specs, sf)
 			cur = nil
-		case "axiom", "lemma":
+		case "lemma":
+			// lemma <PROP> <name> [dispatch I.m ...]: <formula>   (a proof obligation, never assumed)
+			j := -1
+			for k := 0; k+1 < len(rest); k++ {
+				if rest[k] == ':' && rest[k+1] != ':' && (k == 0 || rest[k-1] != ':') {
+					j = k
+					break
+				}
+			}
+			if j < 0 {
+				return fmt.Errorf("%s:%d: lemma <PROP> <name> [dispatch ...]: <formula>", file, s.line)
+			}
+			hdr := strings.Fields(rest[:j])
+			if len(hdr) < 2 {
+				return fmt.Errorf("%s:%d: lemma needs a property id and a name", file, s.line)
+			}
+			src := strings.TrimSpace(rest[j+1:])
+			e, err := parseContractExpr(src)
+			if err != nil {
+				return fmt.Errorf("%s:%d: %v", file, s.line, err)
+			}
+			lm := &Lemma{Prop: hdr[0], Name: hdr[1], Src: src, Expr: e, Pkg: pkgPath, File: file, Line: s.line}
+			if len(hdr) > 2 && hdr[2] == "dispatch" {
+				lm.Dispatch = hdr[3:]
+			}
+			cs.Lemmas = append(cs.Lemmas, lm)
+			cur = nil
+		case "axiom":
 			name, src := "", rest
 			if j := strings.Index(rest, ":"); j > 0 && !strings.HasPrefix(rest[j:], "::") && isIdent(rest[:j]) {
 				name, src = rest[:j], strings.TrimSpace(rest[j+1:])
